@@ -280,6 +280,33 @@ theorem C07_call_is_its_accesses (s : MSt) (t : Tid) (blocking : Bool) (first ne
       (s'.loc t).t1 = some (if blocking then first else (usable (s.last t)).getD first) :=
   mrun_program s t blocking first new
 
+/-- **C07_end_to_end.** Parsing, dictionary logic and arithmetic composed: a thread's first
+    `cpu_percent()` that sees kernel state `w1` and then `w2` in `/proc/stat` returns the
+    percentage of the specification computed on the kernel's own counters. -/
+theorem C07_end_to_end (tck : Nat) (htck : 0 < tck) (vlen ncols : Nat) (hcols : nfOf vlen ≤ ncols)
+    (w1 w2 : ProcStat) (ho1 : ∀ l ∈ w1.other, 10 ∉ l) (ho2 : ∀ l ∈ w2.other, 10 ∉ l) (tid : Tid)
+    (rest : List Bytes) :
+    let e : Env := ⟨cfg, vlen, tck⟩
+    let c : Call := ⟨.percent, tid, none, false, renderProcStat ncols w1 :: renderProcStat ncols w2 :: rest⟩
+    (step e St.init c).2 =
+      .ok (.num (percent (nfOf vlen) (Times.ofTicks tck w1.total) (Times.ofTicks tck w2.total))) 2 := by
+  intro e c
+  have s1 : sample e false (renderProcStat ncols w1) = .ok (.one (seconds tck (nfOf vlen) w1.total)) := by
+    simp only [sample, Env.fields, Bool.false_eq_true, if_false, e]
+    rw [C07_times_exact tck htck vlen ncols hcols w1 ho1]
+  have s2 : sample e false (renderProcStat ncols w2) = .ok (.one (seconds tck (nfOf vlen) w2.total)) := by
+    simp only [sample, Env.fields, Bool.false_eq_true, if_false, e]
+    rw [C07_times_exact tck htck vlen ncols hcols w2 ho2]
+  have hc : calcStored e .percent (.one (seconds tck (nfOf vlen) w1.total)) (.one (seconds tck (nfOf vlen) w2.total))
+      = .ok (.num (percent (nfOf vlen) (Times.ofTicks tck w1.total) (Times.ofTicks tck w2.total))) := by
+    simp only [calcStored, Env.fields, C07_seconds_expose, e]
+    rw [C07_percent_formula]
+    rfl
+  rw [step_unfold]
+  simp only [c, Call.negative, Call.blocking, refOf, usable, St.init, Bool.false_eq_true, if_false, s1]
+  rw [finish_out]
+  simp only [s2, hc]
+
 /-- **C07_negative_interval_raises.** A negative interval raises ValueError before anything is
     read or remembered. -/
 theorem C07_negative_interval_raises (e : Env) (s : St) (c : Call) (i : Rat)
